@@ -164,6 +164,22 @@ def aborted_client_and_page_cache(S, rnd, windex, cnt, res):
         sizes = [n // pieces] * (pieces - 1) + [n - (n // pieces) * (pieces - 1)]
         expected = b"".join(pat(pid + i, sz) for i, sz in enumerate(sizes))
         ops = (["m1"] if not is_async else []) + ["K" + key.hex(), "T" + (key + b"-t").hex()] + ["w%d.%d" % (sz, pid + i) for i, sz in enumerate(sizes)]
+        if variant == 0 and not is_async:
+            # the page is rendered through template filters (escape / urlencode of streamed objects), which put their own stream
+            # buffer on the response stream for the duration of the object
+            def html(b):
+                return b.replace(b"&", b"&amp;").replace(b"<", b"&lt;").replace(b">", b"&gt;").replace(b'"', b"&quot;").replace(b"'", b"&#39;")
+            lines = rnd.choice([400, 1500])
+            fops, fexp = [], b""
+            for i in range(lines):
+                sz = rnd.choice([40, 90, 200])
+                if i % 2 == 0:
+                    fops.append("e%d.%d" % (sz, pid + i)); fexp += html(pat(pid + i, sz))
+                else:
+                    fops.append("u%d.%d" % (sz, pid + i)); fexp += b"".join(bytes([c]) if (48 <= c <= 57 or 65 <= c <= 90 or 97 <= c <= 122 or c in b"-_.~") else b"%%%02x" % c for c in pat(pid + i, sz))
+            ops = ["m1", "K" + key.hex(), "T" + (key + b"-t").hex()] + fops
+            expected = fexp
+            cnt("aborted_client_page_rounds_through_filters")
         if variant == 1 and not is_async:
             # the page ends with a cached frame (copy_filter + store_frame, the documented pattern) rendered after the client has gone
             n_frame = rnd.choice([500, 20000])
@@ -300,7 +316,11 @@ def worker(args):
         res["counters"][k] = res["counters"].get(k, 0) + n
     S = None
     try:
-        S = srv.Server(basedir, exe, "srv%d" % windex)
+        # every fourth server runs with a global C++ locale that groups digits, as an application that calls std::locale::global() has it
+        grouping = windex % 4 == 3
+        S = srv.Server(basedir, exe, "srv%d" % windex, env={"VSRV_GROUPING_LOCALE": "1"} if grouping else None)
+        if grouping:
+            cnt("servers_with_a_grouping_global_locale")
         keepalive_header_isolation(S, rnd, windex, cnt, res)
         if not res["viol"]:
             aborted_client_and_page_cache(S, rnd, windex, cnt, res)
